@@ -296,6 +296,11 @@ def run(prog, tier):
                 elif end in ("retry", None) and not has_test:
                     why_p.append(f"a proposal is dropped without the accept test on the path {[('' if tr else 'not ') + U(t)[:50] for t, tr in conds]} "
                                  f"(only a proposal that failed uniform < A may be rejected)")
+            # a bounded retry loop (`for attempt in range(n)`) that simply runs out leaves the LAST REJECTED proposal in place unless an
+            # `else` suite deals with the exhaustion (as the Hamiltonian step does, by keeping the old point)
+            if isinstance(loop, ast.For) and not loop.orelse:
+                why_p.append(f"the retry loop `for {U(loop.target)} in {U(loop.iter)[:40]}` has no `else`: when every attempt is rejected the code goes "
+                             f"on with a proposal that failed the test")
             obs.append(struct_ob("accept-paths", construct, not why_p,
                                  "every path through the retry loop must end in: accepted by the test, accepted because A >= 1, or rejected "
                                  "by the test; " + "; ".join(why_p[:2]), rel, loop.lineno, slots={"paths": len(_loop_paths(loop.body))}))
